@@ -19,6 +19,7 @@ inductive Err where
   | validationError
   | overflowError
   | zeroDivisionError
+  | attributeError
 deriving DecidableEq, Repr, Inhabited
 
 deriving instance DecidableEq for Except
@@ -30,6 +31,7 @@ def Err.render : Err → String
   | .validationError => "ValidationError"
   | .overflowError => "OverflowError"
   | .zeroDivisionError => "ZeroDivisionError"
+  | .attributeError => "AttributeError"
 
 /-- a raw candidate coordinate -/
 inductive Raw where
